@@ -21,7 +21,7 @@ import re
 import tokenize
 from typing import Any
 
-REPO = os.environ.get('VERIF_REPO', '/repo')
+from harness.common import REPO
 
 IDENT_RE = re.compile(r'[A-Za-z_][A-Za-z_0-9]*')
 
@@ -307,6 +307,8 @@ def fresh_candidates(rng: random.Random, original: str, identifiers: list[str]) 
 		other_core + '__' + core,                                                     # two identifiers around a double underscore
 		stem.strip('_') + rng.choice(['o', 'x', '_', '__', '2', 'ish', '_x']) if stem.strip('_') else 'x',  # reserved word as prefix
 		rng.choice(['x', 'do', 'my', 'a_', 'pre__']) + stem,                             # reserved word as suffix
+		rng.choice(['self', 'cls', 'super']) + rng.choice(['o', 'x', '_', '__', '2', 'ish', '_x', 'X']),   # this/class reference word as prefix
+		rng.choice(['x', 'do', 'my', 'a_', 'pre', 'post__']) + rng.choice(['__init__', '__init__', '__new__', '__eq__', '__name__']),  # dunder as suffix
 		rng.choice(letters),                                                          # single letter
 		''.join(rng.choice(letters + '_') for _ in range(rng.randint(50, 90))) + 'z',  # long
 		core + core,                                                                  # the name doubled
@@ -683,6 +685,9 @@ class NestGen:
 		own = [(self.names.var(ctor_names), t) for _, t in cls.fields]
 		base_params = [(self.names.var(ctor_names), t) for _, t in (base.ctor_params if base else [])]
 		cls.ctor_params = [*base_params, *own]
+		earlier = [c for c in self.classes if c is not nested_in and [f for f in c.all_fields() if not f[0].startswith('__')]]
+		if earlier and r.random() < 0.6:
+			cls.ctor_params.append((self.names.var(ctor_names), r.choice(earlier).qual))
 		lines.append(f"{pad}\tdef __init__(self, {', '.join(f'{n}: {t}' for n, t in cls.ctor_params)}) -> None:")
 		if base:
 			lines.append(f"{pad}\t\tsuper().__init__({', '.join(n for n, _ in base_params)})")
@@ -690,7 +695,7 @@ class NestGen:
 			lines.append(f'{pad}\t\tself.{fn} = {pn}')
 		# further constructor statements: assignments through parameters, calls (the places where spelling-dependent special cases live)
 		env = list(cls.ctor_params)
-		for _ in range(r.randint(0, 2)):
+		for _ in range(r.randint(0, 3)):
 			objs = [(n, self.class_by_name(t)) for n, t in env if self.class_by_name(t) is not None]
 			objs = [(n, c) for n, c in objs if c is not None and [f for f in c.all_fields() if not f[0].startswith('__')]]
 			calls = [f for f in self.funcs if f.ret == 'None']
